@@ -121,7 +121,7 @@ def expand(job):
             yield {"mode": sp, "p": p, "toks": toks, "az": [0, 0], "strp": False}
             continue
         toks, _ = rand_format(rnd)
-        case = {"mode": sp, "p": p, "toks": toks, "az": rnd.choice([[0, 0], [5, 30], [-3, -30]]), "strp": True}
+        case = {"mode": sp, "p": p, "toks": toks, "az": rnd.choice([[0, 0], [5, 30], [-3, -30], [0, -30], [0, 45], [-9, -30], [13, 0], [-11, 0]]), "strp": True}
         if rnd.random() < 0.25:
             case["also"] = rnd.choice([[5, 30], [-3, -30], [13, 45], [-11, 0], [0, 0], [1, 0]])
         yield case
